@@ -96,6 +96,7 @@ class Sched:
     # yield point it sleeps that long in VIRTUAL time there (a delay at a hook that outlasts clock advances; the thread keeps
     # whatever locks it holds, exactly as a descheduled OS thread would)
     self.inject = None
+    self.waypoints, self.wp_i = [], 0   # policy 'directed'
 
   def _new(self, name):
     t = TS(name, len(self.threads))
@@ -189,6 +190,31 @@ class Sched:
     pol = self.policy
     if self.rr_after is not None and self.steps >= self.rr_after:
       pol = 'rr'
+    if pol == 'directed':
+      # a DIRECTED schedule (regression witnesses for narrow windows): waypoints = [(selector(ts) -> bool, goal)], goal is
+      # 'blocked', 'finished' or a predicate on the yield location; the selected thread runs until its goal, then the next
+      # waypoint applies; when a waypoint cannot be served (thread not created yet / not runnable) and after the last one the
+      # policy is fair round-robin
+      while self.wp_i < len(self.waypoints):
+        sel, goal = self.waypoints[self.wp_i]
+        t = next((x for x in self.threads if sel(x)), None)
+        if t is None:
+          break
+        if goal == 'finished':
+          reached = t.status == 'finished'
+        elif goal == 'blocked':
+          reached = t.status == 'finished' or (t.status == 'blocked' and not self.enabled(t))
+        else:
+          reached = getattr(t, 'goal_wp', None) == self.wp_i
+        if reached:
+          self.wp_i += 1
+          continue
+        if t is me and me_enabled:
+          return me
+        if t in cands:
+          return t
+        break
+      pol = 'rr'
     if pol == 'script':
       opts = ([me] if me_enabled else []) + sorted(cands, key=lambda t: t.idx)
       if len(opts) == 1:
@@ -274,6 +300,10 @@ class Sched:
     self.steps += 1
     me.nyield += 1
     me.last_loc = loc
+    if self.policy == 'directed' and self.wp_i < len(self.waypoints):
+      sel, goal = self.waypoints[self.wp_i]
+      if callable(goal) and sel(me) and goal(loc):
+        me.goal_wp = self.wp_i
     if self.state_fn is not None and self.policy != 'script':
       self._lasso_step(me)
     if loc is not None:
@@ -522,20 +552,31 @@ class CoopMixin:
   def put_nowait(self, item):
     return self.put(item, False)
 
+  # qsize / full / empty: a yield point BEFORE the real call and one AFTER it has returned (the interpreter may switch threads
+  # right after a call returns, before the caller uses the value: `qsize() < len(d)` can be split between its two reads)
   def qsize(self):
-    if S is not None:
-      S.yield_point('Queue.qsize')
-    return self._base.qsize(self)
+    if S is None:
+      return self._base.qsize(self)
+    S.yield_point('Queue.qsize')
+    n = self._base.qsize(self)
+    S.yield_point('Queue.qsize:returned')
+    return n
 
   def full(self):
-    if S is not None:
-      S.yield_point('Queue.full')
-    return self._base.full(self)
+    if S is None:
+      return self._base.full(self)
+    S.yield_point('Queue.full')
+    r = self._base.full(self)
+    S.yield_point('Queue.full:returned')
+    return r
 
   def empty(self):
-    if S is not None:
-      S.yield_point('Queue.empty')
-    return self._base.empty(self)
+    if S is None:
+      return self._base.empty(self)
+    S.yield_point('Queue.empty')
+    r = self._base.empty(self)
+    S.yield_point('Queue.empty:returned')
+    return r
 
   def join(self):
     if S is None:
